@@ -494,7 +494,8 @@ pub fn run_case(seed: u64, index: u64, n_dgrams: usize, leg: &str, acc: &mut Acc
   br.mark(None);
   match res {
     Ok(Ok(v)) => {
-      let ids: Vec<u32> = v.iter().filter_map(|o| if let ObsVal::Value { id, .. } = &o.val { Some(*id) } else { None }).filter(|id| *id >= 7000).collect();
+      // the well-behaved peer's samples are recognised by its writer GUID (a mutated copy of a generator sample can carry any id)
+      let ids: Vec<u32> = v.iter().filter(|o| o.writer == Some(g)).filter_map(|o| if let ObsVal::Value { id, .. } = &o.val { Some(*id) } else { None }).collect();
       if ids == vec![7001, 7002, 7003, 7004, 7005] {
         out.aftermath_ok = true;
       } else {
